@@ -519,9 +519,214 @@ theorem euler_convergence_vec (f : E → ℝ → E) (x x2 : ℝ → E) (y : ℕ 
     _ = C2 / L * h * ((1 + h * L) ^ n - 1) := by
         field_simp
 
+/-- the bound in the form of the property: over a fixed horizon `T` cut into `M` steps the error is at most
+`(C₂/L)(e^{LT} − 1)·T/M` — it vanishes as `M` grows, at order one -/
+theorem euler_convergence_rate (f : E → ℝ → E) (x x2 : ℝ → E) (y : ℕ → E) (t0 T L C2 : ℝ) (M : ℕ) (hM : 0 < M) (hT : 0 < T) (hL : 0 < L)
+    (hsol : ∀ s, HasDerivAt x (f (x s) s) s) (hx2 : ∀ s, HasDerivAt (fun s => f (x s) s) (x2 s) s) (hb : ∀ s, ‖x2 s‖ ≤ C2)
+    (hlip : ∀ u v s, ‖f u s - f v s‖ ≤ L * ‖u - v‖)
+    (hy0 : y 0 = x t0) (hy : ∀ n, y (n + 1) = y n + (T / M) • f (y n) (t0 + n * (T / M))) :
+    ‖x (t0 + T) - y M‖ ≤ C2 / L * (Real.exp (L * T) - 1) * (T / M) := by
+  have hMr : (0 : ℝ) < M := by exact_mod_cast hM
+  have hh : 0 < T / M := div_pos hT hMr
+  have hC2 : 0 ≤ C2 := le_trans (norm_nonneg _) (hb 0)
+  have main := euler_convergence_vec f x x2 y t0 (T / M) L C2 hh hL hsol hx2 hb hlip hy0 hy M
+  have e : t0 + (M : ℝ) * (T / M) = t0 + T := by field_simp
+  rw [e] at main
+  have hpow : (1 + T / M * L) ^ M ≤ Real.exp (L * T) := by
+    have h1 : 1 + T / M * L ≤ Real.exp (T / M * L) := by linarith [Real.add_one_le_exp (T / M * L)]
+    have h0 : 0 ≤ 1 + T / M * L := by positivity
+    calc (1 + T / M * L) ^ M ≤ (Real.exp (T / M * L)) ^ M := pow_le_pow_left₀ h0 h1 M
+      _ = Real.exp (L * T) := by
+          rw [← Real.exp_nat_mul]
+          congr 1
+          field_simp
+  calc ‖x (t0 + T) - y M‖ ≤ C2 / L * (T / M) * ((1 + T / M * L) ^ M - 1) := main
+    _ ≤ C2 / L * (T / M) * (Real.exp (L * T) - 1) := by
+        apply mul_le_mul_of_nonneg_left (by linarith)
+        positivity
+    _ = C2 / L * (Real.exp (L * T) - 1) * (T / M) := by ring
+
 end vector
 
 end euler_general
+
+/-! ### RK4 converges for EVERY Lipschitz ODE (at least at order one)
+
+The classical order 4 needs the order conditions ⇒ local error step for a general smooth vector field (textbook, not formalised);
+what IS machine-checked for a general `f` is that the error of `intg='rk'` vanishes as the step count grows: the RK4 step map is
+Lipschitz, it differs from the Euler step by `O(h²)`, and Euler's local error is `O(h²)`. -/
+section rk4_general
+open Set
+variable {E : Type} [NormedAddCommGroup E] [NormedSpace ℝ E]
+
+/-- the four stages and the step, written out (`Spec.rk4`, which `C01.rk4_textbook` proves is rockit's `intg_rk`) -/
+noncomputable def rkK1 (f : E → ℝ → E) (t : ℝ) (u : E) : E := f u t
+noncomputable def rkK2 (f : E → ℝ → E) (t h : ℝ) (u : E) : E := f (u + (h / 2) • rkK1 f t u) (t + h / 2)
+noncomputable def rkK3 (f : E → ℝ → E) (t h : ℝ) (u : E) : E := f (u + (h / 2) • rkK2 f t h u) (t + h / 2)
+noncomputable def rkK4 (f : E → ℝ → E) (t h : ℝ) (u : E) : E := f (u + h • rkK3 f t h u) (t + h)
+noncomputable def rk4E (f : E → ℝ → E) (t h : ℝ) (u : E) : E :=
+  u + h • ((1 / 6 : ℝ) • rkK1 f t u + (1 / 3 : ℝ) • rkK2 f t h u + (1 / 3 : ℝ) • rkK3 f t h u + (1 / 6 : ℝ) • rkK4 f t h u)
+
+theorem rk4E_eq_spec (f : E → ℝ → E) (t h : ℝ) (u : E) : Spec.rk4 f u t h = rk4E f t h u := by
+  simp only [Spec.rk4, rk4E, rkK1, rkK2, rkK3, rkK4, nat_eq, Nat.cast_one, Nat.cast_ofNat]
+  have e1 : h * (1 / 2 : ℝ) = h / 2 := by ring
+  have e2 : t + 1 / 2 * h = t + h / 2 := by ring
+  rw [e1, e2]
+
+/-- a stage evaluated at `u + a·g(u)` is Lipschitz with constant `L(1 + a·c)` when `g` is `c`-Lipschitz -/
+theorem stage_lip (f : E → ℝ → E) (L : ℝ) (hL : 0 ≤ L) (hlip : ∀ u v s, ‖f u s - f v s‖ ≤ L * ‖u - v‖)
+    (g : E → E) (c a s : ℝ) (ha : 0 ≤ a) (hg : ∀ u v, ‖g u - g v‖ ≤ c * ‖u - v‖) (u v : E) :
+    ‖f (u + a • g u) s - f (v + a • g v) s‖ ≤ L * (1 + a * c) * ‖u - v‖ := by
+  have h1 : ‖(u + a • g u) - (v + a • g v)‖ ≤ ‖u - v‖ + a * (c * ‖u - v‖) := by
+    have e : (u + a • g u) - (v + a • g v) = (u - v) + a • (g u - g v) := by rw [smul_sub]; abel
+    rw [e]
+    refine le_trans (norm_add_le _ _) ?_
+    rw [norm_smul, Real.norm_eq_abs, abs_of_nonneg ha]
+    gcongr
+    exact hg u v
+  calc ‖f (u + a • g u) s - f (v + a • g v) s‖ ≤ L * ‖(u + a • g u) - (v + a • g v)‖ := hlip _ _ _
+    _ ≤ L * (‖u - v‖ + a * (c * ‖u - v‖)) := mul_le_mul_of_nonneg_left h1 hL
+    _ = L * (1 + a * c) * ‖u - v‖ := by ring
+
+/-- Lipschitz constant of the RK4 increment -/
+noncomputable def rkLam (L h : ℝ) : ℝ :=
+  (1 / 6) * L + (1 / 3) * (L * (1 + h / 2 * L)) + (1 / 3) * (L * (1 + h / 2 * (L * (1 + h / 2 * L))))
+    + (1 / 6) * (L * (1 + h * (L * (1 + h / 2 * (L * (1 + h / 2 * L))))))
+
+theorem rk4_lipschitz (f : E → ℝ → E) (L t h : ℝ) (hL : 0 ≤ L) (hh : 0 ≤ h) (hlip : ∀ u v s, ‖f u s - f v s‖ ≤ L * ‖u - v‖)
+    (u v : E) : ‖rk4E f t h u - rk4E f t h v‖ ≤ (1 + h * rkLam L h) * ‖u - v‖ := by
+  have h2 : 0 ≤ h / 2 := by linarith
+  have l1 : ∀ u v, ‖rkK1 f t u - rkK1 f t v‖ ≤ L * ‖u - v‖ := fun u v => hlip u v t
+  have l2 : ∀ u v, ‖rkK2 f t h u - rkK2 f t h v‖ ≤ L * (1 + h / 2 * L) * ‖u - v‖ :=
+    fun u v => stage_lip f L hL hlip (rkK1 f t) L (h / 2) (t + h / 2) h2 l1 u v
+  have l3 : ∀ u v, ‖rkK3 f t h u - rkK3 f t h v‖ ≤ L * (1 + h / 2 * (L * (1 + h / 2 * L))) * ‖u - v‖ :=
+    fun u v => stage_lip f L hL hlip (rkK2 f t h) _ (h / 2) (t + h / 2) h2 l2 u v
+  have l4 : ∀ u v, ‖rkK4 f t h u - rkK4 f t h v‖ ≤ L * (1 + h * (L * (1 + h / 2 * (L * (1 + h / 2 * L))))) * ‖u - v‖ :=
+    fun u v => stage_lip f L hL hlip (rkK3 f t h) _ h (t + h) hh l3 u v
+  have e : rk4E f t h u - rk4E f t h v = (u - v) + h • ((1 / 6 : ℝ) • (rkK1 f t u - rkK1 f t v) + (1 / 3 : ℝ) • (rkK2 f t h u - rkK2 f t h v)
+      + (1 / 3 : ℝ) • (rkK3 f t h u - rkK3 f t h v) + (1 / 6 : ℝ) • (rkK4 f t h u - rkK4 f t h v)) := by
+    simp only [rk4E, smul_sub, smul_add]; abel
+  rw [e]
+  have n1 : ‖(1 / 6 : ℝ) • (rkK1 f t u - rkK1 f t v)‖ ≤ (1 / 6) * (L * ‖u - v‖) := by
+    rw [norm_smul, Real.norm_eq_abs, abs_of_nonneg (by norm_num)]; gcongr; exact l1 u v
+  have n2 : ‖(1 / 3 : ℝ) • (rkK2 f t h u - rkK2 f t h v)‖ ≤ (1 / 3) * (L * (1 + h / 2 * L) * ‖u - v‖) := by
+    rw [norm_smul, Real.norm_eq_abs, abs_of_nonneg (by norm_num)]; gcongr; exact l2 u v
+  have n3 : ‖(1 / 3 : ℝ) • (rkK3 f t h u - rkK3 f t h v)‖ ≤ (1 / 3) * (L * (1 + h / 2 * (L * (1 + h / 2 * L))) * ‖u - v‖) := by
+    rw [norm_smul, Real.norm_eq_abs, abs_of_nonneg (by norm_num)]; gcongr; exact l3 u v
+  have n4 : ‖(1 / 6 : ℝ) • (rkK4 f t h u - rkK4 f t h v)‖ ≤ (1 / 6) * (L * (1 + h * (L * (1 + h / 2 * (L * (1 + h / 2 * L))))) * ‖u - v‖) := by
+    rw [norm_smul, Real.norm_eq_abs, abs_of_nonneg (by norm_num)]; gcongr; exact l4 u v
+  have ns := le_trans (norm_add_le _ _) (add_le_add (le_trans (norm_add_le _ _) (add_le_add (le_trans (norm_add_le _ _) (add_le_add n1 n2)) n3)) n4)
+  refine le_trans (norm_add_le _ _) ?_
+  rw [norm_smul, Real.norm_eq_abs, abs_of_nonneg hh]
+  refine le_trans (add_le_add_right (mul_le_mul_of_nonneg_left ns hh) _) (le_of_eq ?_)
+  unfold rkLam
+  ring
+
+/-- global error from local error, vector valued, step map depending on the step index -/
+theorem global_error_vec (Φ : ℕ → E → E) (x y : ℕ → E) (h Λ C : ℝ) (p : Nat) (hh : 0 < h) (hΛ : 0 < Λ)
+    (hy : ∀ n, y (n + 1) = Φ n (y n)) (hy0 : y 0 = x 0)
+    (hlip : ∀ n u v, ‖Φ n u - Φ n v‖ ≤ (1 + h * Λ) * ‖u - v‖)
+    (hloc : ∀ n, ‖x (n + 1) - Φ n (x n)‖ ≤ C * h ^ (p + 1)) :
+    ∀ n, ‖x n - y n‖ ≤ C / Λ * h ^ p * ((1 + h * Λ) ^ n - 1) := by
+  intro n
+  have hstep : ∀ n, ‖x (n + 1) - y (n + 1)‖ ≤ (1 + h * Λ) * ‖x n - y n‖ + C * h ^ (p + 1) := by
+    intro n
+    have e : x (n + 1) - y (n + 1) = (x (n + 1) - Φ n (x n)) + (Φ n (x n) - Φ n (y n)) := by rw [hy n]; abel
+    rw [e]
+    refine le_trans (norm_add_le _ _) ?_
+    linarith [hloc n, hlip n (x n) (y n)]
+  have hg := discrete_gronwall (fun n => ‖x n - y n‖) (h * Λ) (C * h ^ (p + 1)) (by positivity) hstep n
+  have h0 : ‖x 0 - y 0‖ = 0 := by rw [hy0]; simp
+  simp only [h0, mul_zero, zero_add] at hg
+  calc ‖x n - y n‖ ≤ C * h ^ (p + 1) * (((1 + h * Λ) ^ n - 1) / (h * Λ)) := hg
+    _ = C / Λ * h ^ p * ((1 + h * Λ) ^ n - 1) := by
+        field_simp
+        ring
+
+/-- how far a stage evaluated at `u + a·w`, time `t + b`, is from `f(u, t)` -/
+theorem stage_dev (f : E → ℝ → E) (L Lt : ℝ) (hlip : ∀ u v s, ‖f u s - f v s‖ ≤ L * ‖u - v‖)
+    (hlipt : ∀ u s s', ‖f u s - f u s'‖ ≤ Lt * |s - s'|) (u w : E) (a b t : ℝ) (ha : 0 ≤ a) :
+    ‖f (u + a • w) (t + b) - f u t‖ ≤ L * (a * ‖w‖) + Lt * |b| := by
+  have e : f (u + a • w) (t + b) - f u t = (f (u + a • w) (t + b) - f u (t + b)) + (f u (t + b) - f u t) := by abel
+  rw [e]
+  refine le_trans (norm_add_le _ _) (add_le_add ?_ ?_)
+  · have := hlip (u + a • w) u (t + b)
+    rw [add_sub_cancel_left, norm_smul, Real.norm_eq_abs, abs_of_nonneg ha] at this
+    exact this
+  · have := hlipt u (t + b) t
+    rwa [add_sub_cancel_left] at this
+
+/-- the RK4 step differs from the Euler step by `O(h²)` -/
+theorem rk4_minus_euler (f : E → ℝ → E) (L Lt F t h : ℝ) (hL : 0 ≤ L) (hLt : 0 ≤ Lt) (hh : 0 ≤ h)
+    (hlip : ∀ u v s, ‖f u s - f v s‖ ≤ L * ‖u - v‖) (hlipt : ∀ u s s', ‖f u s - f u s'‖ ≤ Lt * |s - s'|)
+    (hF : ∀ u s, ‖f u s‖ ≤ F) (u : E) :
+    ‖rk4E f t h u - (u + h • f u t)‖ ≤ (L * F + Lt) / 2 * h ^ 2 := by
+  have h2 : 0 ≤ h / 2 := by linarith
+  have d2 : ‖rkK2 f t h u - f u t‖ ≤ L * (h / 2 * F) + Lt * (h / 2) := by
+    have := stage_dev f L Lt hlip hlipt u (rkK1 f t u) (h / 2) (h / 2) t h2
+    rw [abs_of_nonneg h2] at this
+    refine le_trans this ?_
+    gcongr
+    exact hF _ _
+  have d3 : ‖rkK3 f t h u - f u t‖ ≤ L * (h / 2 * F) + Lt * (h / 2) := by
+    have := stage_dev f L Lt hlip hlipt u (rkK2 f t h u) (h / 2) (h / 2) t h2
+    rw [abs_of_nonneg h2] at this
+    refine le_trans this ?_
+    gcongr
+    exact hF _ _
+  have d4 : ‖rkK4 f t h u - f u t‖ ≤ L * (h * F) + Lt * h := by
+    have := stage_dev f L Lt hlip hlipt u (rkK3 f t h u) h h t hh
+    rw [abs_of_nonneg hh] at this
+    refine le_trans this ?_
+    gcongr
+    exact hF _ _
+  have e : rk4E f t h u - (u + h • f u t) =
+      h • ((1 / 3 : ℝ) • (rkK2 f t h u - f u t) + (1 / 3 : ℝ) • (rkK3 f t h u - f u t) + (1 / 6 : ℝ) • (rkK4 f t h u - f u t)) := by
+    simp only [rk4E, rkK1, smul_sub, smul_add, smul_smul]
+    module
+  rw [e, norm_smul, Real.norm_eq_abs, abs_of_nonneg hh]
+  have n2 : ‖(1 / 3 : ℝ) • (rkK2 f t h u - f u t)‖ ≤ (1 / 3) * (L * (h / 2 * F) + Lt * (h / 2)) := by
+    rw [norm_smul, Real.norm_eq_abs, abs_of_nonneg (by norm_num)]; gcongr
+  have n3 : ‖(1 / 3 : ℝ) • (rkK3 f t h u - f u t)‖ ≤ (1 / 3) * (L * (h / 2 * F) + Lt * (h / 2)) := by
+    rw [norm_smul, Real.norm_eq_abs, abs_of_nonneg (by norm_num)]; gcongr
+  have n4 : ‖(1 / 6 : ℝ) • (rkK4 f t h u - f u t)‖ ≤ (1 / 6) * (L * (h * F) + Lt * h) := by
+    rw [norm_smul, Real.norm_eq_abs, abs_of_nonneg (by norm_num)]; gcongr
+  have ns := le_trans (norm_add_le _ _) (add_le_add (le_trans (norm_add_le _ _) (add_le_add n2 n3)) n4)
+  refine le_trans (mul_le_mul_of_nonneg_left ns hh) (le_of_eq ?_)
+  ring
+
+/-- **`intg='rk'` converges for every Lipschitz ODE**: `f` Lipschitz in the state (`L > 0`) and in time (`Lt`), bounded by `F`,
+solution with `‖x''‖ ≤ C₂`: the RK4 iterates `y_{n+1} = rk4(f, y_n, t0 + n·h, h)` satisfy
+`‖x(t0 + n·h) − y_n‖ ≤ (C/Λ)·h·((1 + hΛ)^n − 1)` with `C = C₂ + (LF + Lt)/2` and `Λ` the Lipschitz constant of the increment —
+the error vanishes as the step count grows (order ≥ 1 machine-checked for a general vector field; order 4 for the classes of
+`rk4_cubic_exact`, `rk4_linear_convergence`, and measured otherwise) -/
+theorem rk4_convergence (f : E → ℝ → E) (x x2 : ℝ → E) (y : ℕ → E) (t0 h L Lt F C2 : ℝ) (hh : 0 < h) (hL : 0 < L) (hLt : 0 ≤ Lt)
+    (hsol : ∀ s, HasDerivAt x (f (x s) s) s) (hx2 : ∀ s, HasDerivAt (fun s => f (x s) s) (x2 s) s) (hb : ∀ s, ‖x2 s‖ ≤ C2)
+    (hlip : ∀ u v s, ‖f u s - f v s‖ ≤ L * ‖u - v‖) (hlipt : ∀ u s s', ‖f u s - f u s'‖ ≤ Lt * |s - s'|)
+    (hF : ∀ u s, ‖f u s‖ ≤ F)
+    (hy0 : y 0 = x t0) (hy : ∀ n, y (n + 1) = Spec.rk4 f (y n) (t0 + n * h) h) :
+    ∀ n : ℕ, ‖x (t0 + n * h) - y n‖ ≤ (C2 + (L * F + Lt) / 2) / rkLam L h * h * ((1 + h * rkLam L h) ^ n - 1) := by
+  have hΛ : 0 < rkLam L h := by unfold rkLam; positivity
+  intro n
+  have := global_error_vec (fun n u => rk4E f (t0 + n * h) h u) (fun n : ℕ => x (t0 + n * h)) y h (rkLam L h)
+    (C2 + (L * F + Lt) / 2) 1 hh hΛ (fun n => by rw [hy n, rk4E_eq_spec]) (by simpa using hy0)
+    (fun n u v => rk4_lipschitz f L (t0 + n * h) h hL.le hh.le hlip u v)
+    (by
+      intro n
+      have e1 : t0 + ((n + 1 : ℕ) : ℝ) * h = t0 + n * h + h := by push_cast; ring
+      have loc := euler_local_error_vec x (fun s => f (x s) s) x2 C2 (t0 + n * h) h hh.le hsol hx2 hb
+      have dev := rk4_minus_euler f L Lt F (t0 + n * h) h hL.le hLt hh.le hlip hlipt hF (x (t0 + n * h))
+      simp only [e1]
+      have split : x (t0 + n * h + h) - rk4E f (t0 + n * h) h (x (t0 + n * h)) =
+          (x (t0 + n * h + h) - x (t0 + n * h) - h • f (x (t0 + n * h)) (t0 + n * h)) -
+          (rk4E f (t0 + n * h) h (x (t0 + n * h)) - (x (t0 + n * h) + h • f (x (t0 + n * h)) (t0 + n * h))) := by abel
+      rw [split]
+      refine le_trans (norm_sub_le _ _) ?_
+      calc _ ≤ C2 * h ^ 2 + (L * F + Lt) / 2 * h ^ 2 := add_le_add loc dev
+        _ = (C2 + (L * F + Lt) / 2) * h ^ (1 + 1) := by ring) n
+  simpa using this
+
+end rk4_general
 
 /-! ### collocation: the exact solution of a quadrature problem satisfies the collocation equations
 
